@@ -405,7 +405,10 @@ def _denoted(case):
     except UnicodeDecodeError:
         return ("undecodable",)
     joined = posixpath.join(_sub(case["root"]), group)
-    return ("path", joined, posixpath.normpath(joined))
+    norm = posixpath.normpath(joined)
+    if norm.startswith("//"):      # POSIX leaves `//x` implementation-defined; on Linux it is `/x` (the fixture lookup uses that)
+        norm = norm[1:]
+    return ("path", joined, norm)
 
 
 def spec_requests(case, impl):
